@@ -331,21 +331,22 @@ theorem initTop_pair (s s' : Store) (o : Obj) (q : Option Val) (pdo cmd mf : Dic
           obtain ⟨o', a, b, c⟩ := p.stepPdo hsub hn hbt hd hnp kv hk h
           exact ⟨o', by simpa using a, b, c⟩)
         (buildtypeFirst pdo) s s1 o q p (fun kv hkv => hp kv (mem_buildtypeFirst hkv)) hr1
-      have hmem : ∀ kv ∈ buildtypeFirst mf ++ cmd,
+      have hmem : ∀ kv ∈ buildtypeFirst mf ++ buildtypeFirst cmd,
           kv.1 = ⟨n, none, .host⟩ ∨ kv.1 = ⟨n, some sub, .host⟩ ∨ kv.1.name ≠ n := by
         intro kv hkv
         rcases List.mem_append.mp hkv with h | h
         · exact hf kv (mem_buildtypeFirst h)
-        · exact hc kv h
+        · exact hc kv (mem_buildtypeFirst h)
       obtain ⟨o2, p2, hk2, hv2⟩ := pair_loop stepMC false
         (fun kv s s' o q p hk h => by
           obtain ⟨o', a, b, c⟩ := p.stepMC hsub hn hbt hd hnp kv hk h
           exact ⟨o', by simpa using a, b, c⟩)
-        (buildtypeFirst mf ++ cmd) s1 s' o1 _ p1 hmem hrun
+        (buildtypeFirst mf ++ buildtypeFirst cmd) s1 s' o1 _ p1 hmem hrun
       simp only [↓reduceIte, Bool.false_eq_true] at p1 p2
       rw [alast_buildtypeFirst (⟨n, some sub, .host⟩ : Key) pdo hbt] at p2
       refine ⟨o2, p2, hk2.trans hk1, ?_⟩
-      rw [hv2, alast_append, alast_buildtypeFirst (⟨n, none, .host⟩ : Key) mf hbt, hk1, hv1,
+      rw [hv2, alast_append, alast_buildtypeFirst (⟨n, none, .host⟩ : Key) mf hbt,
+        alast_buildtypeFirst (⟨n, none, .host⟩ : Key) cmd hbt, hk1, hv1,
         alast_buildtypeFirst (⟨n, none, .host⟩ : Key) pdo hbt]
       cases alast (⟨n, none, .host⟩ : Key) cmd <;> cases alast (⟨n, none, .host⟩ : Key) mf <;>
         cases alast (⟨n, none, .host⟩ : Key) pdo <;> rfl
